@@ -20,11 +20,11 @@ func init() {
 		Cases: func(tier string) int {
 			switch tier {
 			case "thorough":
-				return 900000
+				return 2000000
 			case "race":
 				return 40000
 			}
-			return 90000
+			return 300000
 		},
 		Run:            c11Run,
 		Floor:          func(tier string) int { return 3000 },
